@@ -277,13 +277,30 @@ CHECKS['C19'] = {
     'technique': 'Hypothesis-generated settled clusters; metamorphic no-side-effect relation + differential against the real start',
 }
 
+CHECKS['C05'] = {
+    'engine': 'E1-clustersim',
+    'category': 'exploration',
+    'text': ('Generated cluster episodes (managed and unmanaged applications, the six conciliation strategies, duplicates '
+             'created by direct Supervisor starts on other instances and by cuts followed by heals, several at once, with '
+             'held / re-ordered deliveries, child exits, slow stops). Bounded-liveness detection oracle (a Master idle in '
+             'OPERATION with a managed conflict in its view for 15 s; idle in CONCILIATION with conflicts left / with none '
+             'left for 15 s), unmanaged applications never a reason; every stop request of a Master in CONCILIATION is '
+             'judged against its view and the true start dates (process in conflict, keeper never stopped, never all '
+             'copies at once for SENICIDE / INFANTICIDE, nothing with USER); every decision (time-stamped by an observation '
+             'wrapper of conciliate_conflicts) is followed up: copies that were to be stopped and are never asked to while '
+             'still running. One race (stops of an earlier decision sent late) is a recorded known finding.'),
+    'design_ref': 'DESIGN.md 5/C05',
+    'note': CLUSTER_NOTE,
+    'technique': 'Hypothesis-generated histories on a cluster simulator, per-request strategy oracle + bounded-liveness counters',
+}
+
 HOOK_COMMITS = []
 
 ENGINES = [
     {'name': 'E1-clustersim', 'path': 'clustersim/', 'kind_free_text':
         'deterministic cluster simulator: N real Supvisors instances in one process on a fake OS / network / clock; '
         'Hypothesis generates configuration and history; per-property monitors',
-     'serves_properties': ['C01', 'C02', 'C03', 'C04', 'C07', 'C08', 'C09', 'C10', 'C12', 'C13', 'C14', 'C16', 'C17', 'C19']},
+     'serves_properties': ['C01', 'C02', 'C03', 'C04', 'C05', 'C07', 'C08', 'C09', 'C10', 'C12', 'C13', 'C14', 'C16', 'C17', 'C19']},
     {'name': 'E3-solo', 'path': 'clustersim/solo.py', 'kind_free_text':
         'one real instance with puppet peers / pure component harnesses driven by Hypothesis',
      'serves_properties': ['C11', 'C15', 'C18', 'C20']},
@@ -291,4 +308,4 @@ ENGINES = [
 
 _PENDING = 'check not built yet in this round (the technique applies; see DESIGN.md section 5)'
 NOT_APPLICABLE = {pid: _PENDING for pid in
-                  ['C05', 'C06']}
+                  ['C06']}
